@@ -366,8 +366,15 @@ def _hints_from_signature(obj: tp.Union[type, tp.Callable]) -> dict[str, type[tp
     except (TypeError, ValueError):  # pragma: no cover
         return {}
     hints = {}
+    # The function which carries the signature knows where its annotations were written
+    #   (an inherited `__init__` need not live in the module of the class).
+    carrier = getattr(obj, "__init__", obj) if inspect.isclass(obj) else obj
     # (An alias such as `tuple["UserId", int]` was not written in the module of its origin.)
-    module = None if tp.get_origin(obj) else getattr(obj, "__module__", None)
+    module = None if tp.get_origin(obj) else getattr(carrier, "__module__", None)
+    try:
+        evaluated = tp.get_type_hints(carrier)
+    except (NameError, TypeError):
+        evaluated = {}
     for name, param in params.items():
         annotation = param.annotation
         if annotation is param.empty:
@@ -378,7 +385,8 @@ def _hints_from_signature(obj: tp.Union[type, tp.Callable]) -> dict[str, type[tp
             ref = refs.forwardref(annotation, is_argument=True, module=module)
             hints[name] = ref
             continue
-        hints[name] = annotation  # pragma: no cover
+        # (References inside it - `Optional["Node"]` - belong to the carrier's module.)
+        hints[name] = evaluated.get(name, annotation)
     return hints
 
 
